@@ -41,6 +41,11 @@ class Tok:
     def size(self):
         return len(self.data)
 
+    @property
+    def uncovered(self):
+        """bytes at the start of an interval that no block covers"""
+        return bool(self.uid) and self.uid[0] == "u"
+
 
 class Listing:
     """tokens[sec_index][iv_index] -> list of Tok"""
@@ -61,6 +66,10 @@ class Listing:
             ivs = []
             for ii, iv in enumerate(sec["ivs"]):
                 toks = []
+                if iv.get("lead"):
+                    # bytes at the start of the interval that no block covers
+                    toks.append(Tok("D", data=b"\xcc" * iv["lead"],
+                                    uid=("u", si, ii), code=False))
                 for blk in iv["blocks"]:
                     bid = blk["id"]
                     self.block_info[bid] = dict(
@@ -202,14 +211,19 @@ class Listing:
             sec_bytes = []
             for toks in ivs:
                 off = 0
+                loff = 0
                 buf = bytearray()
                 for t in toks:
-                    t.pos = lin + off
+                    t.pos = lin + loff
                     t.ivpos = off
                     if t.t in "ID":
                         buf += t.data
                         off += t.size
-                lin += off
+                        # bytes no block covers behave like an address gap:
+                        # they take no part in the linear positions
+                        if not t.uncovered:
+                            loff += t.size
+                lin += loff
                 sec_bytes.append(bytes(buf))
             out.append(sec_bytes)
         return out
@@ -237,12 +251,13 @@ class Listing:
         seq = []
         ivs = self.secs[si]
         for ii, toks in enumerate(ivs):
-            body = [t for t in toks if t.t in "ID"]
+            body = [t for t in toks if t.t in "ID" and not t.uncovered]
             for k, t in enumerate(body):
                 contiguous = True
                 if k == len(body) - 1:
-                    nxt_gap = (self.case["secs"][si]["ivs"][ii + 1].get(
-                        "gap", 0) if ii + 1 < len(ivs) else None)
-                    contiguous = nxt_gap == 0
+                    nxt = (self.case["secs"][si]["ivs"][ii + 1]
+                           if ii + 1 < len(ivs) else None)
+                    contiguous = nxt is not None and \
+                        nxt.get("gap", 0) == 0 and not nxt.get("lead")
                 seq.append((t, contiguous))
         return seq
